@@ -250,7 +250,11 @@ func (st *stream) recordBytesRead(n int) error {
 	}
 	st.lim -= int64(n)
 	if st.lim < 0 {
-		st.stream = nil // panic if we try to read again
+		// Leave the limit at the end of the frame, so any further read
+		// in this frame fails the same way. (A negative limit would mean
+		// "no limit", and the QUIC stream must stay available to the
+		// caller so it can still be closed or reset.)
+		st.lim = 0
 		return &connectionError{
 			code:    errH3FrameError,
 			message: "invalid HTTP/3 frame",
